@@ -1,12 +1,12 @@
 package rules
 
 import (
-	"strings"
 	"fmt"
 	"go/ast"
 	"go/constant"
 	"go/token"
 	"go/types"
+	"strings"
 
 	"pgoverif/checker/an"
 	"pgoverif/checker/core"
